@@ -449,6 +449,12 @@ impl StringEval {
                 nt = true;
             }
         }
+        #[cfg(feature = "serde")]
+        if self.mon & M16 != 0 {
+            m16(s, &gs, acc);
+            // every string is a non-trivial case for C16: acceptance must agree either way
+            nt = true;
+        }
         #[cfg(feature = "smart")]
         {
             let ss: Outcome<purl::SmallString> = run_parse(s, acc);
@@ -500,6 +506,10 @@ impl StringEval {
                     nt = true;
                 }
             }
+            #[cfg(feature = "serde")]
+            if self.mon & M16 != 0 {
+                m16(s, &ts, acc);
+            }
             if self.mon & M08 != 0 {
                 nt |= m08(s, &gs, &ts, acc);
             }
@@ -513,6 +523,78 @@ impl StringEval {
             nt = true;
         }
         nt
+    }
+}
+
+/// M16 — serde form is exactly the string form (for one type parameter).
+#[cfg(feature = "serde")]
+pub fn m16<T>(s: &str, out: &Outcome<T>, acc: &mut Acc) -> bool
+where
+    T: PFlavor + std::str::FromStr,
+    <T as purl::PurlShape>::Error: std::fmt::Display + From<<T as std::str::FromStr>::Err>,
+{
+    use serde::de::IntoDeserializer;
+    use serde::Deserialize;
+    let case = case_string(T::NAME, s);
+    acc.calls += 3;
+    let json = serde_json::to_string(s).expect("a string always serialises");
+    let de: Result<GenericPurl<T>, serde_json::Error> = serde_json::from_str(&json);
+    let de2: Result<GenericPurl<T>, serde::de::value::Error> = GenericPurl::<T>::deserialize(IntoDeserializer::<serde::de::value::Error>::into_deserializer(s.to_owned()));
+    let de3: Result<GenericPurl<T>, serde_json::Error> = serde_json::from_value(serde_json::Value::String(s.to_owned()));
+    match out {
+        Outcome::Panic(_) => false,
+        Outcome::Err(_, text) => {
+            match &de {
+                Ok(p) => acc.violate(Violation { prop: "C16", kind: "deserialize-accepts".into(), case: case.clone(), detail: format!("from_str refuses with {:?} but deserialising the JSON string gives {:?}", text, observe(p)) }),
+                Err(e) => {
+                    if !e.to_string().starts_with(text.as_str()) {
+                        acc.violate(Violation { prop: "C16", kind: "deserialize-error-text".into(), case: case.clone(), detail: format!("from_str error {:?}, serde error {:?}", text, e.to_string()) });
+                    }
+                },
+            }
+            if de2.is_ok() || de3.is_ok() {
+                acc.violate(Violation { prop: "C16", kind: "deserialize-accepts".into(), case, detail: "from_str refuses but another deserializer accepts".into() });
+            }
+            false
+        },
+        Outcome::Ok(p) => {
+            for (name, ok, val) in [("serde_json::from_str", de.is_ok(), de.ok()), ("value::StringDeserializer", de2.is_ok(), de2.ok()), ("serde_json::from_value", de3.is_ok(), de3.ok())] {
+                match val {
+                    None => acc.violate(Violation { prop: "C16", kind: "deserialize-refuses".into(), case: case.clone(), detail: format!("from_str accepts but {name} refuses") }),
+                    Some(q) => {
+                        if &q != p {
+                            acc.violate(Violation { prop: "C16", kind: "deserialize-differs".into(), case: case.clone(), detail: format!("{name} gives {:?}, from_str {:?}", observe(&q), observe(p)) });
+                        }
+                    },
+                }
+                let _ = ok;
+            }
+            // serialisation: exactly the canonical string as one string value
+            acc.calls += 3;
+            let text = p.to_string();
+            match serde_json::to_value(p) {
+                Ok(serde_json::Value::String(v)) if v == text => {},
+                other => acc.violate(Violation { prop: "C16", kind: "serialize-differs".into(), case: case.clone(), detail: format!("serialises as {:?}, canonical string is {:?}", other, text) }),
+            }
+            match serde_json::to_string(p) {
+                Ok(j) if j == serde_json::to_string(&text).unwrap() => {
+                    // JSON round trip is the identity
+                    match serde_json::from_str::<GenericPurl<T>>(&j) {
+                        Ok(q) if &q == p && q.to_string() == text => {},
+                        other => acc.violate(Violation { prop: "C16", kind: "json-roundtrip".into(), case: case.clone(), detail: format!("JSON {j} reads back as {:?}", other.map(|q| observe(&q)).map_err(|e| e.to_string())) }),
+                    }
+                },
+                other => acc.violate(Violation { prop: "C16", kind: "serialize-differs".into(), case: case.clone(), detail: format!("to_string gives {:?}", other.map_err(|e| e.to_string())) }),
+            }
+            // values that are not strings are refused
+            for v in [serde_json::json!(null), serde_json::json!(true), serde_json::json!(0), serde_json::json!(1.5), serde_json::json!([text.clone()]), serde_json::json!({"purl": text.clone()}), serde_json::json!([[text.clone()]]), serde_json::json!({"a": {"b": text.clone()}})] {
+                acc.calls += 1;
+                if let Ok(q) = serde_json::from_value::<GenericPurl<T>>(v.clone()) {
+                    acc.violate(Violation { prop: "C16", kind: "non-string-accepted".into(), case: case.clone(), detail: format!("JSON value {v} deserialises to {:?}", observe(&q)) });
+                }
+            }
+            true
+        },
     }
 }
 
